@@ -286,6 +286,10 @@ def to_sseq(s, shape=None):
 def seq_concat(a, b):
     if isinstance(a, (tuple, list)) and isinstance(b, (tuple, list)):
         return tuple(a) + tuple(b)
+    if hasattr(a, "fold_concat") and isinstance(b, (tuple, list)):
+        # a sequence known only through a fold of its elements (contract-side model, e.g. the running join of a
+        # list of canvases): appending concrete items steps the fold
+        return a.fold_concat(b)
     if isinstance(b, (tuple, list)) and not b:
         return a
     if isinstance(a, (tuple, list)) and not a:
